@@ -238,7 +238,18 @@ const preludeText = `(define-fun wrapu ((x Int) (m Int)) Int (mod x m))
 (assert (forall ((s Int)) (! (>= (strlen s) 0) :pattern ((strlen s)))))
 (declare-fun strcat (Int Int) Int)
 (declare-fun implements (Int Int) Bool)
+(declare-fun sidx (Int Int) Int)
+(assert (forall ((o Int) (i Int)) (! (= (sidx o i) (+ o i)) :pattern ((sidx o i)))))
 `
+
+// sidx: position of element i of a slice with offset off in its backing array. Uninterpreted with a defining
+// axiom, so that quantified facts about slice elements have a usable trigger (select arr (sidx off i)).
+func sidx(off, i Term) Term {
+	if off == "0" {
+		return i
+	}
+	return app("sidx", off, i)
+}
 
 func (s *Script) render(goal Term, withModel bool) string {
 	if s.raw != "" {
